@@ -373,14 +373,18 @@ impl<const H: usize> Writer<H> {
             final_data.extend_from_slice(&original_size.to_le_bytes());
             final_data.extend_from_slice(&compressed);
 
-            let total_payload_len = H + final_data.len();
-            let length_with_flag = (total_payload_len as u32) | COMPRESSION_FLAG;
+            // Only keep the compressed form when it is actually smaller. Incompressible
+            // data would otherwise be stored larger than the caller's size estimate.
+            if final_data.len() < data.len() {
+                let total_payload_len = H + final_data.len();
+                let length_with_flag = (total_payload_len as u32) | COMPRESSION_FLAG;
 
-            Ok((Cow::Owned(final_data), length_with_flag))
-        } else {
-            let total_payload_len = H + data.len();
-            let length_with_flag = total_payload_len as u32;
-            Ok((Cow::Borrowed(data), length_with_flag))
+                return Ok((Cow::Owned(final_data), length_with_flag));
+            }
         }
+
+        let total_payload_len = H + data.len();
+        let length_with_flag = total_payload_len as u32;
+        Ok((Cow::Borrowed(data), length_with_flag))
     }
 }
